@@ -1,7 +1,7 @@
 (* Proofs/MemFsStep.v — every well-formed call preserves the invariant WF (part 2: the
    operations of MemMapFs except Rename, which is in MemFsRename.v). *)
 From AF Require Import Lib.Bytes Lib.Path Lib.Ops Gen.Consts Model.MemFile Model.MemFs Model.WfOps
-  Proofs.BytesLemmas Proofs.MemFsPath Proofs.MemFsWF.
+  Proofs.BytesLemmas Proofs.MemFsPath Proofs.MemFsWF Proofs.MemBelow.
 Local Open Scope Z_scope.
 
 Lemma WF_view s t : mdata s = mdata t -> mheap s = mheap t -> WF s -> WF t.
@@ -54,6 +54,81 @@ Proof.
   destruct (GWF_lookup_node _ _ _ _ _ _ W E) as (n & ->). discriminate.
 Qed.
 
+(* ---------- the ancestor check (memmap.go lockfreeBelowFile) never refuses a well-formed call ---------- *)
+(* every existing name among d, its proper ancestors and the root is a directory *)
+Definition anc_dirs (s : mst) (d : str) : Prop :=
+  forall a r n, canon a -> (a = d \/ below a d = true \/ a = s_slash) ->
+    lookup s a = Some r -> get_node s r = Some n -> ndir n = true.
+
+Lemma anc_dirs_par s d : canon d -> d <> s_slash -> anc_dirs s d -> anc_dirs s (par d).
+Proof.
+  intros Hc Hne H a r n Ha Hcase. apply H; [exact Ha|].
+  destruct (str_eq_dec (par d) s_slash) as [Ep|Ep].
+  - destruct Hcase as [ -> | [ Hb | -> ] ]; [now right; right | | now right; right].
+    rewrite Ep in Hb. exfalso. now apply (below_not_root a s_slash Ha Hb).
+  - destruct Hcase as [ -> | [ Hb | -> ] ]; [| |now right; right]; right; left.
+    + now apply below_par.
+    + eapply below_trans; [exact Hb | now apply below_par].
+Qed.
+
+Lemma below_file_walk_dirs fuel s : forall d, canon d -> anc_dirs s d -> below_file_walk fuel s d = false.
+Proof.
+  induction fuel as [|fu IH]; intros d Hc H; cbn [below_file_walk]; unfold lockfree_open; rewrite (canon_norm d Hc);
+    destruct (lookup s d) as [r|] eqn:Hl.
+  - destruct (get_node s r) as [n|] eqn:Hn; [|reflexivity]. rewrite (H d r n Hc (or_introl eq_refl) Hl Hn). reflexivity.
+  - now destruct (beqb d (path_dir d)).
+  - destruct (get_node s r) as [n|] eqn:Hn; [|reflexivity]. rewrite (H d r n Hc (or_introl eq_refl) Hl Hn). reflexivity.
+  - destruct (beqb d (path_dir d)) eqn:E; [reflexivity|]. apply beqb_neq in E.
+    assert (Hne : d <> s_slash) by (intros ->; now apply E).
+    apply (IH (par d)); [now apply canon_par | now apply anc_dirs_par].
+Qed.
+
+Lemma below_file_anc_dirs s k : canon k -> anc_dirs s (par k) -> below_file s k = false.
+Proof.
+  intros Hc H. unfold below_file. change (path_dir k) with (par k).
+  rewrite below_file_walk_dirs; [apply andb_false_r | now apply canon_par | exact H].
+Qed.
+
+(* the parent directory is there (Create, Mkdir, OpenFile with O_CREATE, Rename to a free name) *)
+Lemma below_file_dir_parent s k : canon k -> is_dir_at s (par k) = true -> below_file s k = false.
+Proof.
+  intros Hc Hd. unfold is_dir_at, kind_at in Hd.
+  destruct (lookup s (par k)) as [r|] eqn:Hl; [|discriminate]. destruct (get_node s r) as [n|] eqn:Hn; [|discriminate].
+  apply (below_file_parent_dir s k r n); [|exact Hn|now destruct (ndir n)].
+  change (path_dir k) with (par k). now rewrite (canon_norm _ (canon_par k Hc)).
+Qed.
+
+(* every existing prefix is a directory (MkdirAll) *)
+Lemma below_file_prefixes_dirs s k : WF s -> canon k -> prefixes_dirs s k = true -> below_file s k = false.
+Proof.
+  intros W Hc Hp. destruct (str_eq_dec k s_slash) as [->|Hne].
+  - apply below_file_anc_dirs; [exact canon_root|]. rewrite par_root. intros a r n Ha Hcase Hl Hn.
+    destruct (g_root _ _ _ _ W) as (r0 & n0 & Hl0 & Hn0 & _ & Hd0).
+    assert (a = s_slash) as -> by (destruct Hcase as [ -> | [ Hb | -> ] ]; auto; exfalso; now apply (below_not_root a s_slash Ha Hb)).
+    congruence.
+  - apply below_file_anc_dirs; [exact Hc|]. intros a r n Ha Hcase Hl Hn.
+    destruct (str_eq_dec a s_slash) as [->|Hane].
+    + destruct (g_root _ _ _ _ W) as (r0 & n0 & Hl0 & Hn0 & _ & Hd0). congruence.
+    + assert (Hb : below a k = true).
+      { apply below_step; auto. destruct Hcase as [ -> | [ Hb | -> ] ]; [now left | now right | contradiction]. }
+      unfold prefixes_dirs in Hp. rewrite forallb_forall in Hp. specialize (Hp (a, r) (aget_in _ _ _ Hl)). cbn [fst] in Hp.
+      rewrite Hb, orb_true_r in Hp. cbn [negb orb] in Hp. unfold is_dir_at, kind_at in Hp. rewrite Hl, Hn in Hp.
+      now destruct (ndir n).
+Qed.
+
+(* the name itself is there (Rename onto an existing file): its parent is a directory *)
+Lemma below_file_existing s k r : WF s -> lookup s k = Some r -> below_file s k = false.
+Proof.
+  intros W Hl. pose proof (g_canon _ _ _ _ W k r Hl) as Hc.
+  destruct (str_eq_dec k s_slash) as [->|Hne].
+  - destruct (g_root _ _ _ _ W) as (r0 & n0 & Hl0 & Hn0 & _ & Hd0).
+    apply (below_file_parent_dir s s_slash r0 n0); [exact Hl0 | exact Hn0 | exact Hd0].
+  - assert (Hnm : node_name s r = k) by (apply (g_fresh _ _ _ _ W k r Hl); intros []).
+    destruct (g_par _ _ _ _ W k r Hl Hnm Hne) as (p & pn & Hp & Hpn & Hpd & _); [intros [] | intros [] |].
+    apply (below_file_parent_dir s k p pn); [|exact Hpn | exact Hpd].
+    change (path_dir k) with (par k). now rewrite (canon_norm _ (canon_par k Hc)).
+Qed.
+
 (* ---------- creating a node under an existing directory ---------- *)
 Lemma reg_new_present s k n0 perm :
   WF s -> canon k -> lookup s k = None -> nname n0 = k -> ndir n0 = nhasdir n0 -> nkids n0 = [] ->
@@ -91,11 +166,11 @@ Proof.
 Qed.
 
 (* ---------- Mkdir / MkdirAll ---------- *)
-Lemma m_mkdir_missing s p perm0 : lookup s (normalize_path p) = None ->
+Lemma m_mkdir_missing s p perm0 : lookup s (normalize_path p) = None -> below_file s (normalize_path p) = false ->
   m_mkdir s p perm0 =
     let k := normalize_path p in let perm := Z.land perm0 chmod_bits in
     set_file_mode (reg (put_new s k (mkdir_node k perm (mclock s))) (length (mheap s)) perm) k (Z.lor perm mode_dir).
-Proof. intros H. unfold m_mkdir. rewrite H. reflexivity. Qed.
+Proof. intros H Hb. unfold m_mkdir. rewrite H, Hb. reflexivity. Qed.
 
 Lemma forallb_lookup {B} (f : str * nat -> bool) s k r (g : B) :
   forallb f (mdata s) = true -> lookup s k = Some r -> f (k, r) = true.
@@ -128,7 +203,8 @@ Proof.
   intros W Hwf. cbn [wf_op] in Hwf. apply andb_true_iff in Hwf as [Hn Hwf].
   destruct (lookup s (normalize_path p)) as [f|] eqn:Hl.
   - unfold m_mkdir. rewrite Hl. exact W.
-  - rewrite (m_mkdir_missing s p perm Hl). cbv zeta. apply WF_set_file_mode.
+  - assert (Hc0 : canon (normalize_path p)) by now apply canon_normalize.
+    rewrite (m_mkdir_missing s p perm Hl (below_file_dir_parent s _ Hc0 Hwf)). cbv zeta. apply WF_set_file_mode.
     set (k := normalize_path p) in *. assert (Hc : canon k) by now apply canon_normalize.
     destruct (reg_new_present s k (mkdir_node k (Z.land perm chmod_bits) (mclock s)) (Z.land perm chmod_bits) W Hc Hl)
       as (q & Hq & -> & W'); auto.
@@ -145,8 +221,9 @@ Proof.
   intros W Hwf. rewrite m_mkdirall_fst. cbn [wf_op] in Hwf. apply andb_true_iff in Hwf as [Hn Hwf].
   destruct (lookup s (normalize_path p)) as [f|] eqn:Hl.
   - unfold m_mkdir. rewrite Hl. exact W.
-  - rewrite (m_mkdir_missing s p perm Hl). cbv zeta. apply WF_set_file_mode.
-    apply WF_mkdir_chain; auto. now apply canon_normalize.
+  - assert (Hc0 : canon (normalize_path p)) by now apply canon_normalize.
+    rewrite (m_mkdir_missing s p perm Hl (below_file_prefixes_dirs s _ W Hc0 Hwf)). cbv zeta. apply WF_set_file_mode.
+    apply WF_mkdir_chain; auto.
 Qed.
 
 (* ---------- Create / Open / OpenFile ---------- *)
@@ -168,7 +245,7 @@ Proof.
   - apply kind_at_some in Hk as (r & n & Hl & Hg & Hd). rewrite Hl, Hg, Hd. unfold alloc_handle. cbn [fst].
     wf_view.
     apply WF_attr; [|exact W]. apply (keeps_comp (with_mtime _) (with_data _)); [apply keeps_mtime | apply keeps_data].
-  - apply (WF_kind_none s k W) in Hk. rewrite Hk.
+  - apply (WF_kind_none s k W) in Hk. rewrite Hk, (below_file_dir_parent s k Hc Hwf).
     pose proof (WF_create_node s k W Hc Hk Hwf) as W'. destruct (m_create_node s k) as [s1 f]. unfold alloc_handle. cbn [fst].
     wf_view. exact W'.
 Qed.
@@ -205,6 +282,7 @@ Proof.
   - destruct (flag_has flag o_excl && flag_has flag o_create); [exact W|]. exact (Tail s f false W).
   - destruct (flag_has flag o_create) eqn:Hcr; [|exact W].
     assert (Hk : kind_at s k = None) by (unfold kind_at; now rewrite Hl). rewrite Hk in Hwf.
+    rewrite (below_file_dir_parent s k Hc Hwf).
     pose proof (WF_create_node s k W Hc Hl Hwf) as W'. destruct (m_create_node s k) as [s1 f]. exact (Tail s1 f true W').
 Qed.
 
